@@ -611,7 +611,8 @@ void cmb_dataset_ACF(const struct cmb_dataset *dsp,
 
     acf[0] = 1.0;
     const double min_acf_variance = 1e-9;
-    if (var < min_acf_variance) {
+    (void)min_acf_variance;
+    if (!(var > 0.0)) {
         /* Would be numerically unstable to divide by that */
         cmb_logger_warning(stderr,
                 "Dataset nearly constant (variance %g), ACFs rounded to zero",
